@@ -1108,7 +1108,12 @@ def main(listenip_v6, listenip_v4,
                 last_e = e
                 used_ports.append(port)
             else:
-                raise e
+                where = " and ".join("%s port %d" % a[:2]
+                                     for a in (lv6, lv4) if a)
+                raise Fatal("Could not bind the redirector listeners to %s: "
+                            "%s. Use --listen to choose an address of this "
+                            "machine and a port you are allowed to use."
+                            % (where, e))
 
     if not bound:
         raise Fatal("Could not bind the redirector listeners on any "
@@ -1154,7 +1159,11 @@ def main(listenip_v6, listenip_v4,
                     last_e = e
                     used_ports.append(port)
                 else:
-                    raise e
+                    where = " and ".join("%s port %d" % a[:2]
+                                         for a in (lv6, lv4) if a)
+                    raise Fatal("Could not bind the DNS listener to %s: %s. "
+                                "Use --listen to choose an address of this "
+                                "machine." % (where, e))
 
         if not bound:
             raise Fatal("Could not bind the DNS listener on any candidate "
